@@ -264,7 +264,9 @@ pub async fn run(seed: u64, sched: Rc<Sched>, keep_log: bool) -> (CaseResult, Ve
         }
     }
     let have = check_prefix(&hist);
-    if have < len && hist.lock().unwrap().violations.is_empty() {
+    if have < len && matches!(end, DriveEnd::StepLimit) {
+        hist.probe("step_budget_exhausted_before_time_bound");
+    } else if have < len && hist.lock().unwrap().violations.is_empty() {
         let q = victim.0.lock().unwrap().as_ref().map(|n| network::verif::view(n).fetch_queue).unwrap_or_default();
         hist.violation(
             "C19",
